@@ -40,7 +40,7 @@ WSpec == Init /\ [][WNext]_vars
 (* rollback, RELEASE then ROLLBACK, nested savepoints, ...                 *)
 (***************************************************************************)
 TRows == {Row(1, 1, 0), Row(2, N, 1)}
-TStep(r, rs) == [op |-> [k |-> "insert", rows |-> <<r>>], ok |-> TRUE, n |-> 1, rows |-> rs, intxn |-> FALSE, touched |-> {r[1]}]
+TStep(r, rs) == [op |-> [k |-> "insert", rows |-> <<r>>], ok |-> TRUE, n |-> 1, rows |-> rs, ret |-> {r}, intxn |-> FALSE, touched |-> {r[1]}]
 TInit == /\ rows = TRows /\ tomb = {} /\ reop = FALSE /\ txn = <<>> /\ conf = "default" /\ nops = 2
          /\ hist = <<TStep(Row(1, 1, 0), {Row(1, 1, 0)}), TStep(Row(2, N, 1), TRows)>>
 TDml == \/ \E r \in {Row(3, 2, 0), Row(1, N, 0)} : Stmt([k |-> "insert", rows |-> <<r>>], DoInsert(rows, <<r>>))
@@ -52,4 +52,20 @@ TDml == \/ \E r \in {Row(3, 2, 0), Row(1, N, 0)} : Stmt([k |-> "insert", rows |-
 TNext == (txn # <<>> /\ TDml) \/ Begin \/ Commit \/ Rollback \/ Savepoint \/ RollbackTo \/ Release
          \/ (txn = <<>> /\ nops > 3 /\ TDml)
 TSpec == TInit /\ [][TNext]_vars
+
+(***************************************************************************)
+(* INSERT ... ON CONFLICT DO NOTHING / DO UPDATE (C05, C06, C09, C10):     *)
+(* from a table with two rows, every upsert variant over a domain that     *)
+(* produces collisions on the primary key, on UNIQUE(a), on both and on    *)
+(* none, SET values that keep and that break UNIQUE / NOT NULL / CHECK,    *)
+(* interleaved with deletes and reopen (tombstones, restarted counters).   *)
+(***************************************************************************)
+URows == {Row(i, a, b) : i \in Ids, a \in {N, 1, 2}, b \in {0, 5}}
+USets == {<<"a", N>>, <<"a", 1>>, <<"a", 2>>, <<"b", 1>>, <<"b", 5>>, <<"b", N>>}
+UInit == /\ rows = {Row(1, 1, 0), Row(2, 2, 1)} /\ tomb = {} /\ reop = FALSE /\ txn = <<>> /\ conf = "default" /\ nops = 2
+         /\ hist = <<TStep(Row(1, 1, 0), {Row(1, 1, 0)}), TStep(Row(2, 2, 1), {Row(1, 1, 0), Row(2, 2, 1)})>>
+UNext == \/ UpsertNothing(URows) \/ UpsertUpdate(URows, USets)
+         \/ \E i \in Ids : Stmt([k |-> "delete", p |-> [k |-> "eq", c |-> "id", v |-> i]], DoDelete(rows, [k |-> "eq", c |-> "id", v |-> i]))
+         \/ Reopen
+USpec == UInit /\ [][UNext]_vars
 =============================================================================
